@@ -133,6 +133,17 @@ where
         let mut val = self.res.write();
         *val = Some(res);
         self.nt.notify_waiters();
+        #[cfg(xet_verif)]
+        crate::verif::emit("SfComplete", || {
+            let class = match val.as_ref() {
+                Some(Ok(_)) => "ok",
+                Some(Err(SingleflightError::InternalError(_))) => "err",
+                Some(Err(SingleflightError::WaiterInternalError(_))) => "err",
+                Some(Err(SingleflightError::OwnerPanicked)) => "panic",
+                _ => "other",
+            };
+            format!("\"call\":{},\"outcome\":\"{}\"", Arc::as_ptr(&self.res) as usize, class)
+        });
         let num_waiters = self.num_waiters.load(Ordering::SeqCst);
         debug!("Completed Call with: {} waiters", num_waiters);
     }
@@ -143,6 +154,8 @@ where
         // read-lock
         let res = self.res.read();
         if let Some(result) = res.clone() {
+            #[cfg(xet_verif)]
+            crate::verif::emit("SfGetFuture", || format!("\"call\":{},\"has\":true", Arc::as_ptr(&self.res) as usize));
             // we already have the result, provide it back to the caller.
             debug!("Call already completed");
             Either::Left(async move { result })
@@ -155,6 +168,8 @@ where
             // block since we need to register our waiting within this read-lock
             // or else, we might miss the owner task's notification.
             let notified = self.nt.notified();
+            #[cfg(xet_verif)]
+            crate::verif::emit("SfGetFuture", || format!("\"call\":{},\"has\":false", Arc::as_ptr(&self.res) as usize));
             Either::Right(async move {
                 notified.await;
                 self.get()
@@ -221,8 +236,14 @@ where
         fut: impl TaskFuture<T, E> + 'static,
     ) -> (Result<T, SingleflightError<E>>, bool) {
         // Get the call to use and a handle for retrieving the results
+        #[cfg(xet_verif)]
+        crate::verif::agate("sf_start", key).await;
         let (call, created) = self.get_call_or_create(key).await;
+        #[cfg(xet_verif)]
+        crate::verif::agate("sf_getfut", key).await;
         let results_future = call.get_future();
+        #[cfg(xet_verif)]
+        crate::verif::agate("sf_await", key).await;
 
         if created {
             // spawn the owner task and wait
@@ -236,6 +257,8 @@ where
                 .and(future_result);
 
             // since we created the call, remove it from the map
+            #[cfg(xet_verif)]
+            crate::verif::agate("sf_remove", key).await;
             if let Err(e) = self.remove_call(key).await {
                 return (Err(e), true);
             }
@@ -263,11 +286,19 @@ where
     async fn get_call_or_create(&self, key: &str) -> (Arc<Call<T, E>>, bool) {
         let mut m = self.call_map.lock().await;
         if let Some(c) = m.get(key).cloned() {
+            #[cfg(xet_verif)]
+            crate::verif::emit("SfGetCall", || {
+                format!("\"key\":\"{}\",\"created\":false,\"call\":{}", key, Arc::as_ptr(&c.res) as usize)
+            });
             (c, false)
         } else {
             let c = Arc::new(Call::new());
             let our_call = c.clone();
             m.insert(key.to_owned(), c);
+            #[cfg(xet_verif)]
+            crate::verif::emit("SfGetCall", || {
+                format!("\"key\":\"{}\",\"created\":true,\"call\":{}", key, Arc::as_ptr(&our_call.res) as usize)
+            });
             (our_call, true)
         }
     }
@@ -276,6 +307,8 @@ where
     /// then an error is returned.
     async fn remove_call(&self, key: &str) -> SingleflightResult<(), E> {
         let mut m = self.call_map.lock().await;
+        #[cfg(xet_verif)]
+        crate::verif::emit("SfRemove", || format!("\"key\":\"{}\",\"found\":{}", key, m.contains_key(key)));
         m.remove(key).ok_or(SingleflightError::CallMissing)?;
         Ok(())
     }
